@@ -27,8 +27,15 @@ def sh(cmd, cwd=None, timeout=3600):
 def verify(src, mid, tests):
     dst = os.path.join(VERIF, "seeded", mid)
     os.makedirs(dst, exist_ok=True)
+    keep = {}
+    if os.path.exists(os.path.join(dst, "meta.json")):
+        keep = json.load(open(os.path.join(dst, "meta.json"))).get("detection", {})
     for f in ("patch.diff", "demo.py", "meta.json"):
         shutil.copy(os.path.join(src, f), os.path.join(dst, f))
+    if keep:
+        m0 = json.load(open(os.path.join(dst, "meta.json")))
+        m0["detection"] = keep
+        json.dump(m0, open(os.path.join(dst, "meta.json"), "w"), indent=1)
     wt = f"/tmp/wt/v-{mid}"
     sh(f"git -C /repo worktree remove --force {wt}")
     rc, out = sh(f"git -C /repo worktree add --detach {wt} HEAD")
@@ -56,7 +63,7 @@ def verify(src, mid, tests):
                             and res.get("demo_with_patch_rc") not in (0, None)
                             and not res.get("tests_unexpected_failures"))
     mp = os.path.join(dst, "meta.json")
-    meta = json.load(open(mp))
+    meta = json.load(open(mp))  # re-read: a detection sweep may have written meanwhile
     meta["verification"] = res
     json.dump(meta, open(mp, "w"), indent=1)
     print(mid, json.dumps(res)[:600])
